@@ -398,9 +398,8 @@ def run_specs(ctx, specs):
 PARTIAL = [
     "stop_bounds_projected_gradient_partial: window 1, default rule, residual bound only; superseded by stop_mode_guarantees "
     "(all four rules, any window >= 1: f(x_next) - f(z) <= stopDelta * (|grad f(x)| + mu |z - x|))",
-    "finite stopping with explicit iteration bounds is proved for all four rules with window 1 and for the two loss-difference rules "
-    "with any window; not for the step-size / projected-gradient rules with windows > 1; with the default eps ~ 1e-14 the bounds exceed "
-    "the coded iteration limit, so a default run may end on the limit",
+    "finite stopping with explicit iteration bounds is proved for all four rules and any window n >= 1 (projected-gradient rule: on "
+    "L-smooth losses); with the default eps ~ 1e-14 the bounds exceed the coded iteration limit, so a default run may end on the limit",
     "the convexity hypotheses are pointwise on C; the relative-entropy losses (clipped at 1e-10) satisfy them only where the model "
     "probabilities of observed outcomes exceed the clip, and satisfy no uniform smoothness bound: the smoothness group covers se / fse",
     "the SCS solver is not modelled: only the objectives handed to CVXPY are (cvx_se_equal_shots, cvx_re_equal_shots); the agreement "
